@@ -261,6 +261,59 @@ func c03Leaf(r *core.Run) {
 	r.Floor("C03.LEAF", "function-reference renderings", nFunc, 1)
 	r.Floor("C03.LEAF", "global renderings", nGlobal, 1)
 
+	// add-recurrences name their loop: {0, +, 1} of an outer and of an inner loop are different values
+	nAR := 0
+	for _, fn := range p.FuncsIn("pkg/analysis/loop") {
+		if fn.Signature.Recv() == nil || !strings.HasSuffix(fn.Signature.Recv().Type().String(), "loop.SCEVAddRec") || fn.Name() != "StringWithRenamer" {
+			continue
+		}
+		nAR++
+		usesLoop := false
+		core.InstrsOf(fn, func(in ssa.Instruction) {
+			// the renamer is asked about something built from the receiver's Loop, and its answer reaches the text
+			c, ok := in.(*ssa.Call)
+			if !ok || c.Call.IsInvoke() || core.StaticCallee(&c.Call) != nil {
+				return
+			}
+			if _, isParam := c.Call.Value.(*ssa.Parameter); !isParam || len(c.Call.Args) != 1 {
+				return
+			}
+			// the argument is a loop reference built from the receiver's Loop field
+			if strings.HasSuffix(core.Unwrap(c.Call.Args[0]).Type().String(), "loop.LoopRef") || strings.Contains(core.Canon(c.Call.Args[0]), ".Loop") {
+				fromRecv := false
+				core.InstrsOf(fn, func(in2 ssa.Instruction) {
+					if fa, ok := in2.(*ssa.FieldAddr); ok && fa.X == ssa.Value(fn.Params[0]) && core.FieldName(fa.X.Type(), fa.Field) == "Loop" {
+						fromRecv = true
+					}
+				})
+				if refs := c.Referrers(); fromRecv && refs != nil && len(*refs) > 0 {
+					usesLoop = true
+				}
+			}
+		})
+		r.Check(usesLoop, "C03.LEAF", core.FuncName(fn)+"#recurrence-names-its-loop", fn.Pos(), "the rendering of an add-recurrence includes a label of its loop obtained from the renamer", "an add-recurrence is rendered as {start, +, step} without its loop: induction variables of different loops are indistinguishable (a[i][j] vs a[j][i])")
+	}
+	r.Floor("C03.LEAF", "add-recurrence renderer", nAR, 1)
+	nLR := 0
+	for _, fn := range p.FuncsIn("pkg/analysis/ir") {
+		core.InstrsOf(fn, func(in ssa.Instruction) {
+			ta, ok := in.(*ssa.TypeAssert)
+			if !ok || !strings.HasSuffix(ta.AssertedType.String(), "loop.LoopRef") {
+				return
+			}
+			nLR++
+			// the label is the canonical name of the loop's header block
+			labelled := false
+			core.InstrsOf(fn, func(in2 ssa.Instruction) {
+				if lk, ok := in2.(*ssa.Lookup); ok && isBlockStringMap(lk.X.Type()) && strings.Contains(core.Canon(lk.Index), ".Header") {
+					labelled = true
+				}
+			})
+			r.Check(labelled, "C03.LEAF", core.FuncName(fn)+"#loop-label", ta.Pos(), "a loop is labelled by the canonical name of its header block", "the loop label handed to add-recurrences is not the canonical header block name")
+		})
+	}
+	r.Floor("C03.LEAF", "loop labelling in the canonicaliser's renamer", nLR, 1)
+
 	// free variables typed in the signature line
 	nSig := 0
 	for _, fn := range p.FuncsIn("pkg/analysis/ir") {
